@@ -239,6 +239,21 @@ theorem c04_session_records_answer_seq_any_choice (sup : List String) (h : sup ‚
       simp [handleInitializeG, hm]
     ¬∑ exact ih _ o ho
 
+/-- Later requests do not reach back: what was answered and recorded for the first requests of a
+sequence is the same whatever follows them on the same handler (so an answer serialised only
+after later requests were handled, or a session looked up later, reads the same). -/
+theorem c04_earlier_answers_unaffected (sup : List String) (xs ys : List InitStepG) (st : List String) :
+    ((runInitsG sup st (xs ++ ys)).1.take xs.length) = (runInitsG sup st xs).1 := by
+  induction xs generalizing st with
+  | nil => simp [runInitsG]
+  | cons x rest ih =>
+    obtain ‚ü®r, carry, choice‚ü© := x
+    simp only [List.cons_append, runInitsG, List.length_cons, List.take_succ_cons, ih]
+
+example : (runInitsG ["2025-06-18", "2024-11-05"] []
+      [(.str "2024-11-05", none, ""), (.str "2025-06-18", none, ""), (.str "1999-01-01", some 0, "2024-11-05")]).1
+    = [("2024-11-05", some "2024-11-05"), ("2025-06-18", some "2025-06-18"), ("2024-11-05", some "2024-11-05")] := by decide
+
 /-- Handshake, whatever the server's choice: agreed on a version both support (recorded by the
 session), or mismatch without the notification. -/
 theorem c04_handshake_sound_any_choice (c : List String) (pref : Option String) (s : List String)
